@@ -375,6 +375,7 @@ func checkWindow(pl *pool, win *ssa.Function) {
 	c.check(len(narrow) == 0, "C07.window", "unresponsiveWindow: arithmetic width", p.pos(win.Pos()), "no shift/multiplication of the window is performed in a type narrower than 64 bits", "window arithmetic can wrap around in a narrow type: "+strings.Join(narrow, "; "))
 	c.check(usesCnt && usesMs, "C07.window", "unresponsiveWindow: inputs", p.pos(win.Pos()), "window depends on the slot's refreshCnt and the configured unresponsive_detection_ms", "window does not depend on both refreshCnt and unresponsive_detection_ms")
 	// multiplications inside a loop are guarded by an overflow test that leaves the loop
+	wcs := newCondSpace(win, nil)
 	for _, l := range loopsOf(win) {
 		for b := range l.Blocks {
 			for _, in := range b.Instrs {
@@ -397,6 +398,22 @@ func checkWindow(pl *pool, win *ssa.Function) {
 					if (cmp.X == bo.X && cy) || (cmp.Y == bo.X && cx) {
 						if !l.Blocks[hb.Succs[0]] || !l.Blocks[hb.Succs[1]] {
 							guarded = true
+							continue
+						}
+						// the guard's "too large" branch stays inside the loop for a while (it reports through a flag that is
+						// tested later): accepted when, on that branch, neither the doubling nor a back edge can be reached
+						for si := 0; si < 2 && !guarded; si++ {
+							fire := wcs.EdgeCond(hb, si)
+							if wcs.Satisfiable(and(fire, wcs.ReachBlock(b))) {
+								continue
+							}
+							again := false
+							for _, lt := range l.Latch {
+								if wcs.Satisfiable(and(fire, wcs.ReachBlock(lt))) {
+									again = true
+								}
+							}
+							guarded = !again
 						}
 					}
 				}
